@@ -151,7 +151,7 @@ func (r *FnRun) inStack(st *State, f *ssa.Function) bool {
 }
 
 // atCallAsserts checks "atcall callee#n" clauses of the function being executed.
-func (r *FnRun) atCallAsserts(st *State, fr *frame, instr ssa.Instruction, f *ssa.Function) {
+func (r *FnRun) atCallAsserts(st *State, fr *frame, instr ssa.Instruction, f *ssa.Function, args []*V) {
 	if fr.fc == nil {
 		return
 	}
@@ -174,20 +174,32 @@ func (r *FnRun) atCallAsserts(st *State, fr *frame, instr ssa.Instruction, f *ss
 	}
 	st.callOrd["atcall:"+name]++
 	ord := st.callOrd["atcall:"+name]
+	site := 0
+	if fr.top {
+		site = r.staticSite(name, instr)
+	}
 	for _, c := range fr.fc.Clauses {
-		if c.Kind == "atcall" && c.Name == name && c.N == ord {
-			t, err := r.evalClause(st, fr, c, nil, "atcall "+name)
+		if c.Kind == "atcall" && c.Name == name && ((!c.Static && c.N == ord) || (c.Static && c.N == site)) {
+			extra := map[string]*V{}
+			for i, a := range args {
+				extra[fmt.Sprintf("$arg%d", i)] = a
+			}
+			t, err := r.evalClause(st, fr, c, extra, "atcall "+name)
 			if err != nil {
 				r.errs = append(r.errs, err.Error())
 				continue
 			}
-			r.oblige(st, "atcall", lbl(c, name), c.Tags, t, r.posOf(instr), fmt.Sprintf("call %s#%d", name, ord))
+			anchor := fmt.Sprintf("call %s#%d", name, ord)
+			if c.Static {
+				anchor = fmt.Sprintf("call %s@%d", name, site)
+			}
+			r.oblige(st, "atcall", lbl(c, name), c.Tags, t, r.posOf(instr), anchor)
 		}
 	}
 }
 
 func (r *FnRun) callStatic(st *State, fr *frame, instr ssa.Instruction, f *ssa.Function, binds []*V, args []*V, k func(*State, *V)) {
-	r.atCallAsserts(st, fr, instr, f)
+	r.atCallAsserts(st, fr, instr, f, args)
 	key := f.String()
 	if m, ok := extModels[key]; ok {
 		r.modelsUsed[key] = true
@@ -302,7 +314,7 @@ func (r *FnRun) evalIn(st, old *State, vars map[string]*V, pkg *types.Package, c
 			panic(x)
 		}
 	}()
-	ctx := &EvalCtx{run: r, st: st, old: old, vars: vars, pkg: pkg, cs: cs, what: what}
+	ctx := &EvalCtx{run: r, st: st, old: old, vars: vars, pkg: pkg, cs: cs, what: what, foreign: true}
 	return ctx.boolOf(e), nil
 }
 
@@ -316,7 +328,7 @@ func (r *FnRun) evalValIn(st, old *State, vars map[string]*V, pkg *types.Package
 			panic(x)
 		}
 	}()
-	ctx := &EvalCtx{run: r, st: st, old: old, vars: vars, pkg: pkg, cs: cs, what: what}
+	ctx := &EvalCtx{run: r, st: st, old: old, vars: vars, pkg: pkg, cs: cs, what: what, foreign: true}
 	return ctx.eval(e), nil
 }
 
@@ -365,6 +377,12 @@ func (r *FnRun) callContractB(st *State, fr *frame, instr ssa.Instruction, f *ss
 		}
 	}
 	r.calleesByContract[callee] = true
+	if fc.Trusted {
+		if r.trustedCallees == nil {
+			r.trustedCallees = map[string]bool{}
+		}
+		r.trustedCallees[pkg.Name()+":"+callee] = true
+	}
 	// ghost parameters: witnesses supplied by the caller's contract, else unconstrained
 	for _, gp := range fc.GhostParams {
 		var w *V
@@ -1513,4 +1531,25 @@ func (e *Engine) dynTargets() *dynTargets {
 	}
 	sort.Slice(d.addrTaken, func(i, j int) bool { return d.addrTaken[i].String() < d.addrTaken[j].String() })
 	return d
+}
+
+
+// staticSite: 1-based index of the call instruction among the call sites of that callee in the function under
+// verification, in source order (0 if not found).
+func (r *FnRun) staticSite(name string, instr ssa.Instruction) int {
+	var sites []ssa.Instruction
+	for _, b := range r.fn.Blocks {
+		for _, ins := range b.Instrs {
+			if call, ok := ins.(*ssa.Call); ok && r.calleeName(&call.Call) == name {
+				sites = append(sites, ins)
+			}
+		}
+	}
+	sort.SliceStable(sites, func(i, j int) bool { return sites[i].Pos() < sites[j].Pos() })
+	for i, s := range sites {
+		if s == instr {
+			return i + 1
+		}
+	}
+	return 0
 }
